@@ -129,7 +129,7 @@ class Report:
                            'how_to_replay': 'python3 /verif/bin/vcheck %s   (static: re-derives this finding from /repo sources)' % self.pid},
                           f, indent=1, default=str)
             replay_paths.append(path)
-            print('%s: %s' % (o['where'] or '?', o['what']))
+            print('%s: [%s] %s' % (o['where'] or '?', o['key'], o['what']))
             print('VIOLATION property=%s replay=%s' % (self.pid, path))
 
         distinct = len(set(o['key'] for o in self.obs if o['verdict'] != 'undecided'))
